@@ -412,8 +412,9 @@ impl<E: FieldElement> OpFlags<E> {
         let u32_rc_op = f100;
 
         // Flag if the top element in the stack should be binary or not.
-        let top_binary = degree7_op_flags[5] // OR op
-            + degree7_op_flags[15]  // EXPACC op
+        // EXPACC is not part of this flag: the bit it produces is the top element of the NEXT row
+        // (see the general stack constraints).
+        let top_binary = degree7_op_flags[5] // NOT op
             + degree7_op_flags[36]  // AND op
             + degree7_op_flags[37]  // OR op
             + degree7_op_flags[42]  // CSWAP op
